@@ -11,7 +11,8 @@ Inductive logline :=
   | LDrop (k : nat)                      (* payload of Arc k dropped *)
   | LInitTls (k body : nat) | LDropTls (k body : nat)
   | LInitLazy (k : nat) | LDropLazy (k : nat)
-  | LPoll (body pc : nat).               (* block_on polled its future *)
+  | LPoll (body pc : nat)                (* block_on polled its future *)
+  | LTlsAccess (k body : nat) (ok : bool). (* destructor of thread-local k used thread-local 0 *)
 
 Inductive blockcond := BNever | BAlways | BMutexLocked | BRwWrite | BRwAny | BChanEmpty.
 
@@ -83,6 +84,14 @@ Inductive micro :=
   | MWakerRelease (w : nat)
   | MWakeTake (w : nat) (wake : bool)
   | MLazyGet (k : nat)
+  | MBlockOnS (a : nat) (v : N) (b1 b2 : nat)
+  | MBsPoll (a : nat) (v : N) (b1 b2 n k : nat) (first : bool)
+  | MBsLoad (a : nat) (v : N) (b1 b2 n k : nat) (first : bool)
+  | MSpawnW (b n k : nat)
+  | MWakeMine
+  | MWakeMineW (n k : nat)
+  | MDropMyWaker
+  | MDropWakerW (n k : nat)
   | MPanic
   | MExplore | MStop | MSkip
   | MNWaitBegin (n : nat)
